@@ -94,8 +94,9 @@ type l2World struct {
 	replicas           []*l2Replica
 	recent             [][]byte   // recently broadcast transactions (client traffic re-uses them)
 	planExecs          string     // the executor list installed by the last executor-change plan (printed form)
-	caseTwin  string     // an L2-native denom that equals a bridged denom up to letter case ("" if none)
-	hookOuter *l1Deposit // the deposit a payload is being built for (class nested)
+	foreignAddr        bool       // the bound bridge address carries the L1's own bech32 prefix
+	caseTwin           string     // an L2-native denom that equals a bridged denom up to letter case ("" if none)
+	hookOuter          *l1Deposit // the deposit a payload is being built for (class nested)
 	lenient            bool       // see l1World
 	sidePct            int        // % of schedule points with client traffic on discarded branches
 	feeBook            []feeEntry // declared fee per tx of the block being executed (C20); nil = fees are zero
@@ -242,16 +243,35 @@ func newL2WorldOpt(r *core.Run, p *l2Profile, fixedBridge uint64, bases []string
 	for i := 0; i < 6; i++ {
 		w.valPool = append(w.valPool, fmt.Sprintf("v%d", i))
 	}
+	if r.Chance(1, 5) {
+		// the chain allows secp256k1 consensus keys too; one candidate validator has such a key (in half of
+		// these worlds it is a genesis validator)
+		w.opts.SecpVals = true
+		w.m.SecpVals = true
+		if r.Chance(1, 2) {
+			w.valPool = append([]string{"secp0"}, w.valPool...)
+		} else {
+			w.valPool = append(w.valPool, "secp0")
+		}
+	}
 	gen := opchildtypes.DefaultGenesisState()
 	hookGas := []uint64{0, 60_000, 1_000_000, 3_000_000}[r.Weighted([]int{1, 1, 6, 2})]
 	gen.Params = opchildtypes.NewParams(w.admin, w.executors, uint32(ng+r.Intn(4)), uint32(r.Intn(5)), sdk.NewDecCoins(), nil, hookGas)
 	for i := 0; i < ng; i++ {
 		pw := []int64{1, 1, 1, 2, 5}[r.Intn(5)] // a genesis may give validators other powers than the 1 that MsgAddValidator assigns
 		v := mkValidator(w.valPool[i], pw)
+		if strings.HasPrefix(w.valPool[i], "secp") {
+			r.Probe("validators.secp256k1-genesis-validator")
+		}
 		gen.Validators = append(gen.Validators, v)
 		w.m.Vals[v.OperatorAddress] = &mVal{Operator: v.OperatorAddress, OpBytes: valOperator(w.valPool[i]), PubKey: node.ValKey(w.valPool[i]).PubKey().Bytes(), Power: pw, Moniker: v.Moniker}
+		if r.Chance(1, 8) {
+			// the genesis file spells this operator address in upper case (the same address)
+			gen.Validators[len(gen.Validators)-1].OperatorAddress = strings.ToUpper(v.OperatorAddress)
+		}
 	}
 	w.m.Params = gen.Params
+	w.foreignAddr = fixedBridge == 0 && r.Chance(1, 4)
 	if p.ClientID != "" || p.ForceBridgeInfo || r.Chance(2, 3) {
 		bi := w.bridgeInfo(p.ClientID)
 		gen.BridgeInfo = &bi
@@ -262,6 +282,7 @@ func newL2WorldOpt(r *core.Run, p *l2Profile, fixedBridge uint64, bases []string
 		pairs = p.Pairs
 	}
 	w.opts.MinGasPrices = p.NodeMinGas
+
 	w.genesis = &node.L2Genesis{Time: w.now, Balances: bal, Opchild: gen, CurrencyPairs: pairs}
 	if r.Chance(1, 5) {
 		// the operator pre-funded the opchild module account in the bank genesis (native coins, sometimes bridged ones too)
@@ -296,9 +317,20 @@ func newL2WorldOpt(r *core.Run, p *l2Profile, fixedBridge uint64, bases []string
 			}
 		}
 	}
-	w.n = node.NewL2(w.db, w.genesis, w.opts, nil)
+	func() {
+		defer func() {
+			if x := recover(); x != nil {
+				// InitChain or the first block cannot be processed from a genesis that is legal by the module's own validation
+				panic(core.FailNow{Inv: "block.processing-failed", Key: "genesis-block-error", Msg: fmt.Sprintf("the chain cannot start from its genesis: %v", x)})
+			}
+		}()
+		w.n = node.NewL2(w.db, w.genesis, w.opts, nil)
+	}()
 	w.enc = w.n.Enc
 	w.eng = engine.New([]string{"ed25519"})
+	if w.opts.SecpVals {
+		w.eng = engine.New([]string{"ed25519", "secp256k1"})
+	}
 	if err := w.eng.InitChain(w.n.InitValidators); err != nil {
 		panic(core.Abort{Reason: "genesis-engine:" + err.Error()})
 	}
@@ -316,7 +348,12 @@ func newL2WorldOpt(r *core.Run, p *l2Profile, fixedBridge uint64, bases []string
 }
 
 func (w *l2World) bridgeInfo(clientID string) opchildtypes.BridgeInfo {
-	return opchildtypes.BridgeInfo{BridgeId: w.bridgeID, BridgeAddr: sdk.AccAddress(prover.Escrow(w.bridgeID)).String(), L1ChainId: node.L1ChainID, L1ClientId: clientID,
+	addr := sdk.AccAddress(prover.Escrow(w.bridgeID)).String()
+	if w.foreignAddr {
+		// the L1 uses another address prefix: the bridge address is an opaque string for the L2's codec
+		addr = "init1qqqsyqcyq5rqwzqfpg9scrgwpugpzysnjscnev"
+	}
+	return opchildtypes.BridgeInfo{BridgeId: w.bridgeID, BridgeAddr: addr, L1ChainId: node.L1ChainID, L1ClientId: clientID,
 		BridgeConfig: ophosttypes.BridgeConfig{Challenger: w.ustr[0], Proposer: w.ustr[1], BatchInfo: ophosttypes.BatchInfo{Submitter: w.ustr[0], ChainType: 1},
 			SubmissionInterval: time.Minute, FinalizationPeriod: time.Hour, SubmissionStartHeight: 1, OracleEnabled: true}}
 }
@@ -704,6 +741,9 @@ func (w *l2World) genOp(spec *modelL2, bc blockCtx) ([]sdk.Msg, string, string) 
 			tag = "other-bridge-id"
 		case 1:
 			bi.BridgeAddr = w.pickUser()
+			if w.foreignAddr {
+				bi.BridgeAddr = "init1zg69v7ys40x77y352eufp27daufrg4nc3xg4pz" // another string the L2 cannot decode either
+			}
 			tag = "other-bridge-addr"
 		case 2:
 			bi.L1ChainId = "other-l1"
@@ -833,6 +873,9 @@ type l2Pending struct {
 	Desc   string
 	LowGas bool
 	Fault  string
+	// MustFail: the transaction carries something its ante handler has to refuse (a light-client update no
+	// honest relayer could produce); it must fail as a whole and the model does not step
+	MustFail string
 }
 
 func (w *l2World) runBlock() *core.Violation {
@@ -1022,6 +1065,13 @@ func (w *l2World) execBlock(bc blockCtx, txs []l2Pending, crash string) *core.Vi
 					break
 				}
 			}
+		}
+		if pt.MustFail != "" {
+			if tr.OK {
+				return w.fail(mismatch{"hostset.hostile-accepted", "hostile-client-update-accepted", []string{"C15"}, "a transaction carrying " + pt.MustFail + " succeeded"})
+			}
+			w.r.Probe("hostset.hostile-refused")
+			continue
 		}
 		if oog {
 			continue
@@ -1240,6 +1290,30 @@ func l2Completeness(kind string) []string {
 // registered again after every restart, as an application constructor would).
 func (w *l2World) registerPlan(bc blockCtx) *core.Violation {
 	r := w.r
+	if len(w.plans) > 0 && r.Chance(1, 6) {
+		// the start-up code runs again (or a second upgrade handler names the same height): the same plan with
+		// another executor list, or with another moniker, for a height that is already taken
+		p := w.plans[r.Intn(len(w.plans))]
+		if int64(p.Height) > w.n.Height() {
+			q := p
+			if r.Chance(2, 3) {
+				q.NextExecutors = []string{node.AddrN("executor", r.Intn(5)).String(), w.outsider}
+			} else {
+				q.Moniker += "-again"
+			}
+			before := fmt.Sprintf("%+v", w.n.OK.ExecutorChangePlans[p.Height])
+			errReg := w.n.OK.RegisterExecutorChangePlan(q.ProposalID, q.Height, q.NextValidator, q.Moniker, q.ConsPubKeyJSON, q.Info, q.NextExecutors)
+			r.Step("plan.register", "height=%d re-registration with other content -> err=%v", q.Height, errReg)
+			if errReg == nil {
+				return w.fail(mismatch{"plan.malformed-accepted", "malformed-plan-accepted:duplicate-height", []string{"C14"}, "a second registration for a height that is already taken was accepted"})
+			}
+			if after := fmt.Sprintf("%+v", w.n.OK.ExecutorChangePlans[p.Height]); after != before {
+				return w.fail(mismatch{"plan.malformed-side-effect", "malformed-plan-side-effect", []string{"C14"}, "rejected plan registration changed the stored plan"})
+			}
+			r.Probe("plan.malformed-rejected")
+			return nil
+		}
+	}
 	h := uint64(bc.Height) + uint64(r.Intn(5))
 	opLbl := fmt.Sprintf("planop%d", r.Intn(3))
 	keyLbl := fmt.Sprintf("plankey%d", r.Intn(3))
